@@ -341,7 +341,7 @@ func (X *Exec) execUnOp(fr *Frame, i *ssa.UnOp, st *State) {
 			return
 		}
 		if x.T.Sort == SReal {
-			fr.Regs[i] = &Val{T: ts.App("-", SReal, x.T), GT: i.Type()}
+			fr.Regs[i] = &Val{T: ts.Raw("-", SReal, x.T), GT: i.Type()}
 			return
 		}
 		fr.Regs[i] = &Val{T: X.E.wrapIfNarrow(ts.Neg(x.T), i.Type()), GT: i.Type()}
@@ -900,6 +900,13 @@ func (X *Exec) execBinOp(fr *Frame, i *ssa.BinOp, st *State) *Val {
 	default:
 		panic("binop " + i.Op.String())
 	}
+	if X.Wrap64 {
+		// `opt arith wrap64`: + - * wrap at the type's width for 64-bit types too (machine arithmetic), so that an
+		// overflow of a peer-controlled number is not hidden by mathematical integers
+		if _, _, isInt := intRange(T); isInt {
+			return &Val{T: X.E.wrap(r, T), GT: T}
+		}
+	}
 	return &Val{T: X.E.wrapIfNarrow(r, T), GT: T}
 }
 
@@ -1007,16 +1014,16 @@ func (X *Exec) execConvert(fr *Frame, i *ssa.Convert, st *State) *Val {
 	case fok && tok && fb.Info()&types.IsInteger != 0 && tb.Info()&types.IsInteger != 0:
 		return &Val{T: X.E.wrap(x.T, T), GT: T}
 	case fok && tok && fb.Info()&types.IsInteger != 0 && tb.Info()&types.IsFloat != 0:
-		return &Val{T: ts.App("to_real", SReal, x.T), GT: T}
+		return &Val{T: ts.Raw("to_real", SReal, x.T), GT: T}
 	case fok && tok && fb.Info()&types.IsFloat != 0 && tb.Info()&types.IsFloat != 0:
 		return &Val{T: x.T, GT: T}
 	case fok && tok && fb.Info()&types.IsFloat != 0 && tb.Info()&types.IsInteger != 0:
 		// truncation toward zero when representable; otherwise an arbitrary value of the type
 		r := X.freshOfType(st, T, "f2i")
 		z := ts.RealLit("0.0")
-		fl := ts.App("to_int", SInt, x.T)
-		neg := ts.Neg(ts.App("to_int", SInt, ts.App("-", SReal, x.T)))
-		tr := ts.Ite(ts.App(">=", SBool, x.T, z), fl, neg)
+		fl := ts.Raw("to_int", SInt, x.T)
+		neg := ts.Neg(ts.Raw("to_int", SInt, ts.Raw("-", SReal, x.T)))
+		tr := ts.Ite(ts.Raw(">=", SBool, x.T, z), fl, neg)
 		st.assume(ts, ts.Implies(X.E.inRange(tr, T), ts.Eq(r, tr)))
 		return &Val{T: r, GT: T}
 	case fok && fb.Info()&types.IsString != 0:
@@ -1115,7 +1122,6 @@ func (X *Exec) applyStoreHooks(fr *Frame, st *State, i *ssa.Store, addr *Addr, v
 		}
 	}
 }
-
 
 // immutableCapture: the captured variable is assigned exactly once (where it is declared / spilled) by the function
 // that owns it and by no closure: inside the closures it is a constant.
